@@ -89,6 +89,7 @@ pub struct G<'a, 'b> {
     /// names of locally declared types (tsx)
     types: Vec<String>,
     in_async: bool,
+    in_generator: bool,
 }
 
 pub const BOUND_VALUES: &[&str] = &["a", "b", "x", "y", "o", "f", "g", "xs", "p", "q", "m", "sl"];
@@ -124,6 +125,7 @@ impl<'a, 'b> G<'a, 'b> {
             fresh: 0,
             types: vec![],
             in_async: false,
+            in_generator: false,
         }
     }
 
@@ -226,9 +228,21 @@ impl<'a, 'b> G<'a, 'b> {
             }
             1 => {
                 let n = self.fresh("fn");
-                let body = self.block(1);
-                self.f.ctx("function");
-                format!("export function {n}(arg0, arg1 = {}) {body}", self.small_expr(1))
+                // async functions and generators: `await` / `yield` may appear in JSX children
+                let kind = self.c.weighted(&[6, 1, 1]);
+                self.in_async = kind == 1;
+                self.in_generator = kind == 2;
+                let body = if kind == 0 {
+                    self.block(1)
+                } else {
+                    let j = self.jsx(1);
+                    format!("{{\n  return {j};\n}}")
+                };
+                self.in_async = false;
+                self.in_generator = false;
+                self.f.ctx(match kind { 0 => "function", 1 => "async-function", _ => "generator-function" });
+                let head = match kind { 0 => "function", 1 => "async function", _ => "function*" };
+                format!("export {head} {n}(arg0, arg1 = {}) {body}", self.small_expr(1))
             }
             2 => {
                 self.f.ctx("class");
@@ -803,6 +817,15 @@ impl<'a, 'b> G<'a, 'b> {
                 ])),
                 1 => {
                     let e = match self.c.pick(6) {
+                        // `await` / `yield` children where the enclosing function allows them
+                        _ if self.in_async && self.c.chance(1, 3) => {
+                            self.f.unusual("await-or-yield-child");
+                            if self.c.bool() { "await f()".to_string() } else { "f(await g(1))".to_string() }
+                        }
+                        _ if self.in_generator && self.c.chance(1, 3) => {
+                            self.f.unusual("await-or-yield-child");
+                            "yield 1".to_string()
+                        }
                         0 => {
                             if n == 1 && comp {
                                 self.f.sole_ident_or_call_child = true;
